@@ -136,8 +136,11 @@ claim("C11",
       "run's initial state and the WHOLE recorded tick log, whose result it returns.",
       "Not a full functional-equality proof: that the loop feeds EVERY tick exactly once and in order is checked by the "
       "loop contract's structure (for-over-list cut at the invariant) but 'result == fold(reduce, ticks)' is not stated "
-      "as a ghost fold yet; that the persistence adapter journals every tick it is shown is under contract "
-      "(PersistTick) but that the runner main loop shows every tick to adapter.on_tick is trusted; timestamps are set aside as in the statement.",
+      "as a ghost fold yet; that the persistence adapter journals every tick it is shown (PersistTick) and that the "
+      "runner's _process_tick shows every tick it has reduced to adapter.on_tick exactly once, before executing its "
+      "commands (RunnerProcessTick), are under contract - that the runner's main loop passes every tick it takes from "
+      "its buffer to _process_tick is read off the loop (`while self.tick_buffer: ... _process_tick(tick)`) and "
+      "trusted; timestamps are set aside as in the statement.",
       category="other")
 
 claim("C20",
@@ -191,7 +194,9 @@ claim("C13",
       "reducer really emitted for one of those ticks (so a run whose ticks already end it is finalized, not re-run). "
       "The journal side is under contract too: _PersistenceInternalRunAdapter.on_tick is proved (ghost call log) to "
       "forward EVERY tick, whatever its kind, to the inner adapter and to offer its serialised form to "
-      "store.append_tick exactly once under the run's id.",
+      "store.append_tick exactly once under the run's id; and the live runner's _process_tick is proved to hand every "
+      "tick it has reduced to adapter.on_tick exactly once, before any of its commands runs (a tick the reducer "
+      "rejected is not journaled), after_tick following exactly when the tick did not end the run.",
       "The statement's 'no accepted event is lost' half is decided only up to the journal: commands of replayed ticks "
       "other than the exit command are discarded by design and whether their effects were persisted as later ticks is "
       "a property of the rest of the server runtime (_on_server_start, the store's append_tick implementations) that "
